@@ -180,6 +180,13 @@ class Ctx:
         return True
 
     def finish(self, rule, floor=2, exhaustive=None, trusted_base=None):
+        for d in getattr(self, '_workdirs', []):          # driver runs by NL input format (written by mpmon.run_case)
+            try:
+                t = open(os.path.join(d, '.nlfmt')).read()
+                self.extras['driver_runs_text_nl'] = self.extras.get('driver_runs_text_nl', 0) + t.count('t')
+                self.extras['driver_runs_binary_nl'] = self.extras.get('driver_runs_binary_nl', 0) + t.count('b')
+            except OSError:
+                pass
         cov = dict(evaluations=self.evals, distinct_nontrivial=len(self.sigs), rule=rule,
                    samples=self.samples[:5] or ['(none)'])
         if exhaustive is not None:
